@@ -34,6 +34,15 @@ type Query { node: Node ab: AB a(t: Tag): A }
 type Mutation { go: Int }
 type Subscription { ev: Int }
 """
+TWO_IFACES_SDL = """
+enum Color { RED GREEN }
+interface Node { id: ID link(x: Int): Node }
+interface Linked { link(x: Int, y: Color): Linked id: ID! }
+type A implements Node & Linked { id: ID! link(x: Int, y: Color): A a: Int }
+type B implements Linked & Node { link(x: Int, y: Color): B id: ID! b: Float }
+type C implements Node { id: ID link(x: Int): Node }
+type Query { node: Node linked: Linked a: A b: B c: C }
+"""
 SMALL_SDL = "interface N { id: ID! } type A implements N { id: ID! a(x: Int = 1): [Int!] } union U = A enum E { X Y } input I { a: Int } type Query { a: A u: U e(i: I): E }"
 HOOKS = ["on_argument_execution", "on_post_input_coercion", "on_field_execution", "on_pre_output_coercion", "on_introspection",
          "on_post_bake", "on_field_collection", "on_fragment_spread_collection", "on_inline_fragment_collection", "on_schema_execution",
@@ -42,7 +51,8 @@ HOOKS = ["on_argument_execution", "on_post_input_coercion", "on_field_execution"
 
 def seed_models():
     from vf.props import c11
-    return [("base", S.parse_sdl(BASE_SDL)), ("renamed", S.parse_sdl(c11.RENAMED_SDL)), ("deprecations", S.parse_sdl(c11.DEPR_SDL))]
+    return [("base", S.parse_sdl(BASE_SDL)), ("renamed", S.parse_sdl(c11.RENAMED_SDL)), ("deprecations", S.parse_sdl(c11.DEPR_SDL)),
+            ("two-interfaces", S.parse_sdl(TWO_IFACES_SDL))]
 
 
 def with_type(schema, t):
@@ -84,10 +94,15 @@ def sx(schema):
         yield raw("undefined-type", "input-field-via-extend", "extend input %s { zz: ZzUndefined }" % t.name)
     yield model("undefined-type", "directive-argument", replace(schema, directives=schema.directives + (DirectiveDef("zzd", (ArgDef("x", und),), ("FIELD",)),)))
     yield model("non-input-type", "directive-argument", replace(schema, directives=schema.directives + (DirectiveDef("zzd", (ArgDef("x", ("named", objs[0].name)),), ("FIELD",)),)))
-    # interface contract
+    # interface contract: every (object, interface it implements, interface field) and every argument position; the mutated field may
+    # still satisfy the object's *other* interfaces (TWO_IFACES_SDL has interfaces sharing field names with different demands)
+    done = set()
+    first_pair = True
     for t in objs:
-        for iname in t.interfaces:
+        for ipos, iname in enumerate(t.interfaces):
             it = schema.type(iname)
+            tag = "object" if first_pair else "object|interface-%d-of-%d" % (ipos + 1, len(t.interfaces))
+            first_pair = False
             for ifield in it.fields:
                 idx = [i for i, f in enumerate(t.fields) if f.name == ifield.name][0]
                 f = t.fields[idx]
@@ -95,18 +110,27 @@ def sx(schema):
                 def withf(nf):
                     return with_type(schema, replace(t, fields=t.fields[:idx] + ((nf,) if nf else ()) + t.fields[idx + 1:]))
 
-                yield model("interface-field-missing", "object", withf(None))
-                yield model("interface-field-type", "object|other-scalar", withf(replace(f, type=("named", "Boolean"))))
+                cands = [("interface-field-missing", "", None),
+                         ("interface-field-type", "|other-scalar", replace(f, type=("named", "Boolean"))),
+                         ("interface-field-type", "|list-for-named", replace(f, type=("list", f.type)))]
                 if f.type[0] == "nn":
-                    yield model("interface-field-type", "object|nullable-for-non-null", withf(replace(f, type=f.type[1])))
-                yield model("interface-field-type", "object|list-for-named", withf(replace(f, type=("list", f.type))))
-                if ifield.args:
-                    yield model("interface-argument-missing", "object", withf(replace(f, args=())))
-                    yield model("interface-argument-type", "object", withf(replace(f, args=(replace(f.args[0], type=("named", "String")),) + f.args[1:])))
-                    yield model("interface-argument-type", "object|non-null-for-nullable", withf(replace(f, args=(replace(f.args[0], type=("nn", f.args[0].type)),) + f.args[1:])))
-                yield model("interface-extra-required-argument", "object", withf(replace(f, args=f.args + (ArgDef("extra", ("nn", ("named", "Int"))),))))
-            break
-        break
+                    cands.append(("interface-field-type", "|nullable-for-non-null", replace(f, type=f.type[1])))
+                for other in objs + ifaces:
+                    if other.name not in (doc.named_of(f.type), schema.query) and doc.named_of(f.type) not in ("ID", "Int", "String", "Float", "Boolean"):
+                        cands.append(("interface-field-type", "|other-composite", replace(f, type=("named", other.name))))
+                for ai, ia in enumerate(ifield.args):
+                    pos = [k for k, a in enumerate(f.args) if a.name == ia.name][0]
+                    cands.append(("interface-argument-missing", "|arg-%d" % ai, replace(f, args=f.args[:pos] + f.args[pos + 1:])))
+                    cands.append(("interface-argument-type", "|arg-%d" % ai, replace(f, args=f.args[:pos] + (replace(f.args[pos], type=("named", "String")),) + f.args[pos + 1:])))
+                    cands.append(("interface-argument-type", "|arg-%d-non-null-for-nullable" % ai,
+                                  replace(f, args=f.args[:pos] + (replace(f.args[pos], type=("nn", f.args[pos].type)),) + f.args[pos + 1:])))
+                cands.append(("interface-extra-required-argument", "", replace(f, args=f.args + (ArgDef("extra", ("nn", ("named", "Int"))),))))
+                for rule, sub, nf in cands:
+                    key = (t.name, ifield.name, rule, sub, repr(nf))
+                    if key in done:
+                        continue
+                    done.add(key)
+                    yield model(rule, tag + sub, withf(nf))
     for t in objs:
         if not t.interfaces and ifaces and t.name not in (schema.query, schema.mutation, schema.subscription):
             yield raw("interface-field-missing", "obligation-added-by-extend", "extend type %s implements %s" % (t.name, ifaces[0].name))
